@@ -27,7 +27,7 @@ ALPHABET = collections.OrderedDict([
     # line buffer of the standard streams
     ("off-region-long-last-line", b"a  ;\n// pasfmt off\n" + b"x := " + b"y + " * 2000 + b"z;"),
     ("invalid-utf8", b"a ;\xff\n"),
-    ("invalid-utf8-after-non-ascii", "x := '".encode() + "é".encode() * 13 + b"' ; //\xff\n"),
+    ("invalid-utf8-after-non-ascii", "x := '".encode() + "é".encode() * 13 + b"' ;//\xff\n"),
     ("utf8-bom", b"\xef\xbb\xbfa  ;\n"),
     ("utf16le-bom", "﻿a  ;\n".encode("utf-16-le")),
     ("utf16be-bom-formatted", "﻿a;\n".encode("utf-16-be")),
